@@ -326,6 +326,8 @@ var failKinds = []failKind{
 	{"percent-completed-by-shared-callee", `<a href="/search/%2{{template "ipt" .}}">1</a><a href="javascr{{template "ipt" .}}">2</a>`},
 	{"before-value-joined-with-unquoted-value", `<a title={{if .N}}x{{end}} class="{{.S}}">y</a>`},
 	{"before-value-joined-with-unquoted-value-range", `<a title={{range .N}}x{{end}} class="{{.S}}">y</a>`},
+	{"ambiguous-url-prefix-else-if", `<a href="{{if .N}}/path/{{else if .S}}/path/{{else}}/search?q={{end}}{{.S}}">x</a>`},
+	{"ambiguous-url-prefix-nested", `<a href="{{if .N}}{{else}}{{if .S}}{{else}}javascript:{{end}}{{end}}{{.S}}">x</a>`},
 	{"else-if-chain-attribute-names-2", `<a {{if .N}}title{{else if .S}}href{{else}}title{{end}}="{{.S}}">x</a>`},
 }
 
